@@ -279,6 +279,15 @@ def condBroadcastN : Nat → World → Nat → World × Outs
 
 def condBroadcast (w : World) (c : Nat) : World × Outs := condBroadcastN (w.conds c).queue.length w c
 
+/-- the timeout action of `a`'s wait on `c` finishes: finish() with FINISHED and not granted → cancel(); the simcall
+result becomes true; then the mutex is re-locked -/
+def condTimeoutStep (w : World) (a : Aid) (c : Nat) : Except Err (World × Outs) :=
+  match (w.conds c).queue.find? (fun q => q.issuer = a ∧ q.waited ∧ q.timed) with
+  | none => .error .noTimer
+  | some acq =>
+    let w1 := { w with conds := upd w.conds c { queue := eraseC a (w.conds c).queue } }
+    .ok (condRelock w1 a acq.mutex true)
+
 def grantUnwaitedB (h : Aid → Bool) : List BAcq → (Aid → Bool)
   | [] => h
   | x :: xs => grantUnwaitedB (if x.waited then h else upd h x.issuer true) xs
@@ -348,13 +357,7 @@ def World.step (w : World) : Ev → Except Err (World × Outs)
   | .broadcast a c =>
     let (w1, o) := condBroadcast w c
     .ok (w1, o ++ [(a, .unit)])
-  | .condTimeout a c =>
-    match (w.conds c).queue.find? (fun q => q.issuer = a ∧ q.waited ∧ q.timed) with
-    | none => .error .noTimer
-    | some acq =>
-      -- finish(): FINISHED and not granted → cancel(); result true; then re-lock the mutex
-      let w1 := { w with conds := upd w.conds c { queue := eraseC a (w.conds c).queue } }
-      .ok (condRelock w1 a acq.mutex true)
+  | .condTimeout a c => condTimeoutStep w a c
   | .barWait a b =>
     let (b1, g, released) := (w.bars b).acquireAsync a
     let (b2, fin) := b1.waitFor a g
